@@ -4,6 +4,8 @@
 (* TRACE_FILE: {"lower": {atom: atom}, "upper": {atom: atom},                *)
 (*   "events": [{"fn": "#sub", "args": [{"k": "s"|"i", "s": [...], "i": n}], *)
 (*               "out": {"k": "s"|"i", "s": [...], "i": n}}, ...]}           *)
+(* (an argument {"k": "n", "s": [atoms]} is an integer parameter written as  *)
+(*  that numeral)                                                            *)
 EXTENDS Integers, Sequences, FiniteSets, TLC, Json, IOUtils
 
 TraceFile == JsonDeserialize(IOEnv.TRACE_FILE)
@@ -17,7 +19,8 @@ S == INSTANCE StrFns WITH LowerOf <- T_Lower, UpperOf <- T_Upper, Dev <- NoDev
 tvars == <<l, bad>>
 
 ArgS(e, i) == IF i <= Len(e.args) THEN e.args[i].s ELSE <<>>
-ArgI(e, i) == IF i <= Len(e.args) THEN e.args[i].i ELSE 0
+\* an integer parameter recorded as the numeral that was written (k = "n": leading zeros, blanks) is read by the reference
+ArgI(e, i) == IF i <= Len(e.args) THEN (IF e.args[i].k = "n" THEN S!IntArg(e.args[i].s) ELSE e.args[i].i) ELSE 0
 Mode(e) == IF Len(e.args) >= 2 THEN e.args[2].s[1] ELSE "QUERY"
 
 Ref(e) ==
